@@ -40,7 +40,7 @@ func (c *c09) Phases(tier string) []PhaseSpec {
 	if tier == "thorough" {
 		return []PhaseSpec{
 			{Name: "cutsweep", Runs: 0, Sweep: true, Note: "every cut position of every corpus pair x {string, file, directory}"},
-			{Name: "deliver", Runs: 3000000, Note: "seeded faults on the searched stream, base and fault-surviving programs"},
+			{Name: "deliver", Runs: 1200000, Note: "seeded faults on the searched stream, base and fault-surviving programs"},
 		}
 	}
 	return []PhaseSpec{{Name: "deliver", Runs: 40000, Note: "seeded faults on the searched stream, base and fault-surviving programs"}}
